@@ -206,6 +206,18 @@ CHECKS["C19"] = dict(
     technique="TLA+ model of goroutines/channel/handles model-checked with TLC (liveness); TLC-generated histories replayed; TLC trace validation",
     design="3/C19")
 
+CHECKS["C18"] = dict(
+    text="spec/props/C18.tla models N callers stepping through Load / VisitEnter / VisitPrint / VisitLeave / Run on the visitor state "
+         "shared through the Env; TLC explores every interleaving of 3 callers and checks OwnContentType, ResultAsAlone, "
+         "NoSharedMutation and that every call returns (the variant without the traversal lock must violate OwnContentType). The "
+         "harness, built with the Go race detector, runs 8..64 goroutines of Execute/Parse calls on one Twig and one core "
+         "environment over templates of different content types, records every result next to the same call made alone, and TLC "
+         "(C18_Trace.tla) rejects a run if any result differs from its sequential result or a data race was reported.",
+    note="Trusted: the Go race detector as the instrument for unmodelled memory accesses (it sees the traced runs only); goroutine "
+         "scheduling is the Go runtime's (many rounds, all goroutines released together), not enumerated.",
+    technique="TLA+ interleaving model checked with TLC; race-detector-instrumented concurrent runs validated as traces by TLC",
+    design="3/C18")
+
 NOT_YET = {}
 
 props = [json.loads(l)["id"] for l in open(os.path.join(VERIF, "properties.jsonl"))]
